@@ -1,12 +1,14 @@
 """C05 - Sampling a spectrum from phi is exact binomial integration on every code path
 
-Status: bounded run-time contracts only (props/bounded_C05.py) until the proof obligations of DESIGN.md 7 C05 are added.
+Contracts (contracts/py_wiring.py c05_*): Numerics.trapz rule, _from_phi_1D_direct / _from_phi_2D_direct entry-wise closed forms with the
+total-equals-trapezoid-mass lemma (binomial theorem, ring normaliser), from_phi dispatch and bookkeeping for 1-4 populations, roles of the
+inbreeding arguments.  The semi-analytic (incomplete-beta / linear-algebra), admixture and inbreeding samplers stay with the bounded drivers.
 """
 from vf.helpers import bounded_tasks
 
 META = dict(
     level='other',
-    explanation='Run-time contracts on the real functions over the bounded domain stated per driver (bounded stand-in; nothing proved).',
+    explanation='Closed-form and wiring contracts of the direct samplers and of the dispatch discharged from their AST by z3 and the ring normaliser (numpy.trapezoid by its documented rule, trusted); the semi-analytic, admixture and inbreeding samplers are run-time contracts over the bounded domain stated per driver (never counted as proved).',
     trusted_base=['oracles of props/bounded_C05.py (independent of dadi: exact rationals, mpmath, dense linear algebra, explicit index loops)'],
     rule='cases enumerated or sampled as stated in each driver\'s bound; a case is non-trivial unless the driver marks it degenerate; distinct by its key',
 )
@@ -14,7 +16,15 @@ META = dict(
 
 def tasks(tier):
     from vf.core import Task
-    return [Task('props.wire:run', name='C05/wire.c05_inbreeding_roles', fname='c05_inbreeding_roles', timeout=300)] + bounded_tasks('C05', tier)
+    W = lambda name, fname, **kw: Task('props.wire:run', name='C05/wire.' + name, fname=fname, kwargs=kw, timeout=400)
+    ts = [W('c05_inbreeding_roles', 'c05_inbreeding_roles'), W('trapz', 'c05_trapz'),
+          W('direct_1d.n3_G4', 'c05_direct_1d', n=3, G=4), W('direct_1d.n2_G3_het', 'c05_direct_1d', n=2, G=3, het='xx'),
+          W('direct_2d.2_1_G3', 'c05_direct_2d', nx=2, ny=1, G=3)]
+    ts += [W('dispatch.%dD' % P, 'c05_from_phi_dispatch', P=P) for P in (1, 2, 3, 4)]
+    if tier == 'thorough':
+        ts += [W('direct_1d.n6_G6', 'c05_direct_1d', n=6, G=6), W('direct_1d.n4_G5_het', 'c05_direct_1d', n=4, G=5, het='xx'),
+               W('direct_2d.2_2_G4', 'c05_direct_2d', nx=2, ny=2, G=4)]
+    return ts + bounded_tasks('C05', tier)
 
 
 MANIFEST_ENTRY = dict(
